@@ -172,6 +172,9 @@ func min32(a, b uint32) uint32 {
 
 // genHash: the real 32 bytes, or a hash of another length (ValidateHash accepts 0 or 32), or other 32 bytes.
 func genHash(t *rapid.T, label string, real []byte) []byte {
+	if len(real) == 0 {
+		real = make([]byte, 32)
+	}
 	switch weighted(t, label+".k", 70, 8, 5, 5, 8, 4) {
 	case 0:
 		return real
@@ -268,6 +271,7 @@ type cctx struct {
 	fR    uint32
 	fType kproto.SignedMsgType
 	fID   *kproto.BlockID
+	stick int // 0..100: how strongly generated fields keep to the focus (templates raise it)
 }
 
 func (c *cctx) drawFocus(t *rapid.T) {
@@ -278,6 +282,21 @@ func (c *cctx) drawFocus(t *rapid.T) {
 	c.fID = nil
 	id := c.genBlockID(t, "focus.id", 1<<26)
 	c.fID = &id
+	c.stick = 65
+}
+
+// near: the focus height/round with the case's stickiness, otherwise a value around it.
+func (c *cctx) nearH(t *rapid.T, label string) uint64 {
+	if weighted(t, label+".stick", c.stick, 100-c.stick) == 0 {
+		return c.fH
+	}
+	return genU64Near(t, label, c.fH)
+}
+func (c *cctx) nearR(t *rapid.T, label string) uint32 {
+	if weighted(t, label+".stick", c.stick, 100-c.stick) == 0 {
+		return c.fR
+	}
+	return genU32Near(t, label, c.fR)
 }
 
 func chanOf(m consensus.Message) byte {
@@ -375,7 +394,7 @@ func (c *cctx) isSeed(b []byte) bool {
 // ---------------------------------------------------------------- structure-aware messages
 
 func (c *cctx) genBlockID(t *rapid.T, label string, maxHuge uint32) kproto.BlockID {
-	if c.fID != nil && weighted(t, label+".focus", 65, 35) == 0 {
+	if c.fID != nil && weighted(t, label+".focus", c.stick, 100-c.stick) == 0 {
 		return *c.fID
 	}
 	var base types.BlockID
@@ -397,7 +416,7 @@ func (c *cctx) genBlockID(t *rapid.T, label string, maxHuge uint32) kproto.Block
 }
 
 func (c *cctx) genType(t *rapid.T, label string) kproto.SignedMsgType {
-	if weighted(t, label+".focus", 65, 35) == 0 {
+	if weighted(t, label+".focus", c.stick, 100-c.stick) == 0 {
 		return c.fType
 	}
 	return genType(t, label)
@@ -469,7 +488,7 @@ func (c *cctx) genVote(t *rapid.T) (*kproto.Vote, string) {
 		vidx, addr = uint32(c.v.nd.ValidatorIndex()), c.v.nd.Addr.Bytes() // claims to be the victim itself
 		desc += "+as-victim"
 	}
-	pv := &kproto.Vote{Type: c.genType(t, "vote.type"), Height: genU64Near(t, "vote.h", c.fH), Round: genU32Near(t, "vote.r", c.fR),
+	pv := &kproto.Vote{Type: c.genType(t, "vote.type"), Height: c.nearH(t, "vote.h"), Round: c.nearR(t, "vote.r"),
 		BlockID: c.genBlockID(t, "vote.id", 1<<32-1), Timestamp: genTime(t, "vote.ts"), ValidatorAddress: addr, ValidatorIndex: vidx}
 	if weighted(t, "vote.sig", 80, 20) == 0 {
 		if err := types.NewDefaultPrivValidator(c.v.s.Keys[c.attacker]).SignVote(c.v.s.G.ChainID, pv); err != nil {
@@ -498,7 +517,7 @@ func (c *cctx) genProposal(t *rapid.T) (*kproto.Proposal, string) {
 	if garbage || !byProposer {
 		maxHuge = 1<<32 - 1
 	}
-	pp := &kproto.Proposal{Type: genType(t, "prop.type"), Height: genU64Near(t, "prop.h", c.fH), Round: genU32Near(t, "prop.r", c.fR),
+	pp := &kproto.Proposal{Type: genType(t, "prop.type"), Height: c.nearH(t, "prop.h"), Round: c.nearR(t, "prop.r"),
 		PolRound: pick(t, "prop.pol", 0, 0, 0, 1, c.R-1, c.R, c.R+1, 1<<32-1), BlockID: c.genBlockID(t, "prop.id", maxHuge), Timestamp: genTime(t, "prop.ts")}
 	if garbage {
 		pp.Signature = genSigGarbage(t, "prop.gsig")
@@ -570,10 +589,43 @@ func (c *cctx) genPart(t *rapid.T) (kproto.Part, string) {
 
 // structured draws one structure-aware message.
 func (c *cctx) structured(t *rapid.T) wire {
-	switch weighted(t, "type", 12, 14, 14, 10, 12, 14, 8, 8, 12) {
+	return c.structuredType(t, weighted(t, "type", 12, 14, 14, 10, 12, 14, 8, 8, 12))
+}
+
+// message type numbers of structuredType
+const (
+	mNewRoundStep = iota
+	mNewValidBlock
+	mProposal
+	mProposalPOL
+	mBlockPart
+	mVote
+	mHasVote
+	mVoteSetMaj23
+	mVoteSetBits
+)
+
+// templates: message-type sequences in which each message builds on what the previous ones did to the peer state.
+var templates = [][]int{
+	{mVote, mVoteSetBits},
+	{mVote, mVoteSetMaj23, mVoteSetBits},
+	{mVoteSetMaj23, mVoteSetBits, mVoteSetBits},
+	{mProposal, mProposalPOL, mHasVote},
+	{mProposal, mProposalPOL, mVote},
+	{mNewValidBlock, mBlockPart},
+	{mNewValidBlock, mHasVote, mVoteSetBits},
+	{mProposal, mBlockPart, mBlockPart},
+	{mVote, mHasVote, mVoteSetBits},
+	{mVoteSetMaj23, mVoteSetMaj23, mVote},
+	{mProposal, mNewValidBlock, mProposalPOL},
+	{mVote, mVote, mVote},
+}
+
+func (c *cctx) structuredType(t *rapid.T, k int) wire {
+	switch k {
 	case 0:
 		step := pick(t, "nrs.step", uint32(1), 2, 3, 4, 5, 6, 7, 8, 0, 9, 255, 256+3, 1<<32-1)
-		h := genU64Near(t, "nrs.h", c.fH)
+		h := c.nearH(t, "nrs.h")
 		lcr := genU32Near(t, "nrs.lcr", c.v.lastCommitRound())
 		if weighted(t, "nrs.lcrfit", 70, 30) == 0 { // what ValidateHeight demands
 			if h <= 1 {
@@ -582,7 +634,7 @@ func (c *cctx) structured(t *rapid.T) wire {
 				lcr = 1
 			}
 		}
-		return wire{ch: consensus.StateChannel, desc: "NewRoundStep", data: encCons(&kcons.NewRoundStep{Height: h, Round: genU32Near(t, "nrs.r", c.fR), Step: step,
+		return wire{ch: consensus.StateChannel, desc: "NewRoundStep", data: encCons(&kcons.NewRoundStep{Height: h, Round: c.nearR(t, "nrs.r"), Step: step,
 			SecondsSinceStartTime: pick(t, "nrs.secs", uint64(0), 1, 1<<31, 1<<63, ^uint64(0)), LastCommitRound: lcr})}
 	case 1:
 		id := c.genBlockID(t, "nvb.id", 1<<32-1)
@@ -591,30 +643,30 @@ func (c *cctx) structured(t *rapid.T) wire {
 			nat = 1 << 20
 		}
 		b, bd := genBits(t, "nvb.bits", nat)
-		return wire{ch: consensus.StateChannel, desc: "NewValidBlock/" + bd, data: encCons(&kcons.NewValidBlock{Height: genU64Near(t, "nvb.h", c.fH), Round: genU32Near(t, "nvb.r", c.fR),
+		return wire{ch: consensus.StateChannel, desc: "NewValidBlock/" + bd, data: encCons(&kcons.NewValidBlock{Height: c.nearH(t, "nvb.h"), Round: c.nearR(t, "nvb.r"),
 			BlockPartSetHeader: id.PartSetHeader, BlockParts: b, IsCommit: rapid.Bool().Draw(t, "nvb.commit")})}
 	case 2:
 		pp, d := c.genProposal(t)
 		return wire{ch: consensus.DataChannel, desc: "Proposal/" + d, data: encCons(&kcons.Proposal{Proposal: *pp})}
 	case 3:
 		b, bd := genBits(t, "pol.bits", c.nVals)
-		return wire{ch: consensus.DataChannel, desc: "ProposalPOL/" + bd, data: encCons(&kcons.ProposalPOL{Height: genU64Near(t, "pol.h", c.fH),
+		return wire{ch: consensus.DataChannel, desc: "ProposalPOL/" + bd, data: encCons(&kcons.ProposalPOL{Height: c.nearH(t, "pol.h"),
 			ProposalPolRound: pick(t, "pol.r", 0, 1, 1, c.R-1, c.R, c.R+1, 1<<32-1), ProposalPol: bitsVal(b)})}
 	case 4:
 		p, d := c.genPart(t)
-		return wire{ch: consensus.DataChannel, desc: "BlockPart/" + d, data: encCons(&kcons.BlockPart{Height: genU64Near(t, "bp.h", c.fH), Round: genU32Near(t, "bp.r", c.fR), Part: p})}
+		return wire{ch: consensus.DataChannel, desc: "BlockPart/" + d, data: encCons(&kcons.BlockPart{Height: c.nearH(t, "bp.h"), Round: c.nearR(t, "bp.r"), Part: p})}
 	case 5:
 		pv, d := c.genVote(t)
 		return wire{ch: consensus.VoteChannel, desc: "Vote/" + d, data: encCons(&kcons.Vote{Vote: pv})}
 	case 6:
-		return wire{ch: consensus.StateChannel, desc: "HasVote", data: encCons(&kcons.HasVote{Height: genU64Near(t, "hv.h", c.fH), Round: genU32Near(t, "hv.r", c.fR),
+		return wire{ch: consensus.StateChannel, desc: "HasVote", data: encCons(&kcons.HasVote{Height: c.nearH(t, "hv.h"), Round: c.nearR(t, "hv.r"),
 			Type: c.genType(t, "hv.type"), Index: genIndex(t, "hv.idx", c.nVals)})}
 	case 7:
-		return wire{ch: consensus.StateChannel, desc: "VoteSetMaj23", data: encCons(&kcons.VoteSetMaj23{Height: genU64Near(t, "m23.h", c.fH), Round: genU32Near(t, "m23.r", c.fR),
+		return wire{ch: consensus.StateChannel, desc: "VoteSetMaj23", data: encCons(&kcons.VoteSetMaj23{Height: c.nearH(t, "m23.h"), Round: c.nearR(t, "m23.r"),
 			Type: c.genType(t, "m23.type"), BlockID: c.genBlockID(t, "m23.id", 1<<32-1)})}
 	}
 	b, bd := genBits(t, "vsb.bits", c.nVals)
-	return wire{ch: consensus.VoteSetBitsChannel, desc: "VoteSetBits/" + bd, data: encCons(&kcons.VoteSetBits{Height: genU64Near(t, "vsb.h", c.fH), Round: genU32Near(t, "vsb.r", c.fR),
+	return wire{ch: consensus.VoteSetBitsChannel, desc: "VoteSetBits/" + bd, data: encCons(&kcons.VoteSetBits{Height: c.nearH(t, "vsb.h"), Round: c.nearR(t, "vsb.r"),
 		Type: c.genType(t, "vsb.type"), BlockID: c.genBlockID(t, "vsb.id", 1<<32-1), Votes: bitsVal(b)})}
 }
 
